@@ -17,13 +17,17 @@ And4(a, b) == LET f[i \in 0..4] == IF i = 0 THEN 0 ELSE f[i - 1] + (IF Bit(a, i 
 VARIABLES l, bad,
           saved,      \* stack of [pc, f, imr, s] captured at each delivery (from the pushed frame)
           prevDue,    \* was an interrupt deliverable (outside handlers) at the previous step boundary without being taken
-          wantOff     \* the CPU executed OFF and no ON-key has been seen since
-vars == <<l, bad, saved, prevDue, wantOff>>
+          wantOff,    \* the CPU executed OFF and no ON-key has been seen since
+          kbirq       \* configuration of the traced machine: 1 = keyboard interrupts enabled (default); 0 = the machine was built
+                      \* with them disabled, KEYI then neither arms a request nor wakes a halted CPU (every other source does)
+vars == <<l, bad, saved, prevDue, wantOff, kbirq>>
 
-TInit == l = 1 /\ bad = {} /\ saved = <<>> /\ prevDue = FALSE /\ wantOff = FALSE
+TInit == l = 1 /\ bad = {} /\ saved = <<>> /\ prevDue = FALSE /\ wantOff = FALSE /\ kbirq = 1
+\* the status bits that count for arming / waking under the machine's configuration
+Eff(isr) == IF kbirq = 1 \/ Bit(isr, 2) = 0 THEN isr ELSE isr - 4
 Flag(e, c, d) == bad' = bad \cup {[tid |-> e.tid, line |-> l, clause |-> c, detail |-> d]}
 
-Deliverable(o) == o.pw = "run" /\ Bit(o.imr, 7) = 1 /\ And4(o.imr, o.isr) # 0 /\ o.inint = 0 /\ o.s >= 5
+Deliverable(o) == o.pw = "run" /\ Bit(o.imr, 7) = 1 /\ And4(o.imr, Eff(o.isr)) # 0 /\ o.inint = 0 /\ o.s >= 5
 FramePc(fr) == fr[3] + 256 * fr[4] + 65536 * (fr[5] % 16)
 Quiet(o) == (o.nm = 0 \/ o.nm > o.cyc + 2) /\ (o.ns = 0 \/ o.ns > o.cyc + 2)
 \* the source an entry is for is the one the machine itself reports (last_irq_src / last_irq["src"], logged as post.src:
@@ -65,10 +69,10 @@ Clause(e) ==
      \* (powering off resets the controller; the property says nothing about requests across a power-off)
      ELSE IF a.pw # "off" /\ b.pw # "off" /\ Dropped(a, b) \ (ClrMask(e) \cup (IF retiRan /\ saved # <<>> THEN {top.src} ELSE {})) # {} THEN "StatusNotLost"
      ELSE IF prevDue /\ Deliverable(a) /\ Deliverable(b) /\ ~D THEN "PromptAfterUnmask"
-     ELSE IF a.pw = "halt" /\ And4(a.isr, 15) = 0 /\ And4(b.isr, 15) = 0 /\ b.pw = "halt" /\ ~(b.pc = a.pc /\ b.instr = a.instr /\ b.f = a.f /\ b.s = a.s /\ b.imr = a.imr) THEN "HaltExecutesNothing"
-     ELSE IF a.pw = "halt" /\ And4(a.isr, 15) # 0 /\ b.pw = "halt" /\ ~execd THEN "HaltWakesOnStatus"
+     ELSE IF a.pw = "halt" /\ And4(Eff(a.isr), 15) = 0 /\ And4(Eff(b.isr), 15) = 0 /\ b.pw = "halt" /\ ~(b.pc = a.pc /\ b.instr = a.instr /\ b.f = a.f /\ b.s = a.s /\ b.imr = a.imr) THEN "HaltExecutesNothing"
+     ELSE IF a.pw = "halt" /\ And4(Eff(a.isr), 15) # 0 /\ b.pw = "halt" /\ ~execd THEN "HaltWakesOnStatus"
      \* (a matrix key debounced by this step's keyboard scan raises KEYI during the step: then b.isr shows it)
-     ELSE IF a.pw = "halt" /\ a.isr = 0 /\ And4(b.isr, 15) = 0 /\ Quiet(a) /\ b.pw # "halt" THEN "HaltOnlyWakesOnStatus"
+     ELSE IF a.pw = "halt" /\ Eff(a.isr) = 0 /\ And4(Eff(b.isr), 15) = 0 /\ Quiet(a) /\ b.pw # "halt" THEN "HaltOnlyWakesOnStatus"
      ELSE IF wantOff /\ Bit(a.isr, 3) = 0 /\ (execd \/ b.pc # a.pc) THEN "OffExecutesNothing"
      ELSE IF wantOff /\ Bit(a.isr, 3) = 0 /\ (Bit(b.isr, 0) > Bit(a.isr, 0) \/ Bit(b.isr, 1) > Bit(a.isr, 1)) THEN "OffStopsTimers"
      ELSE "ok"
@@ -76,7 +80,7 @@ Clause(e) ==
 TNext ==
   /\ l <= Len(TraceLog) /\ l' = l + 1
   /\ LET e == TraceLog[l] IN
-     IF e.ev = "Init" THEN bad' = bad /\ saved' = <<>> /\ prevDue' = FALSE /\ wantOff' = FALSE
+     IF e.ev = "Init" THEN bad' = bad /\ saved' = <<>> /\ prevDue' = FALSE /\ wantOff' = FALSE /\ kbirq' = e.kbirq
      ELSE LET c == Clause(e)
               a == e.pre  b == e.post  fr == e.frame
               D == b.tot > a.tot
@@ -96,6 +100,7 @@ TNext ==
              /\ prevDue' = (Deliverable(a) /\ Deliverable(b) /\ ~D /\ c # "PromptAfterUnmask")
              /\ wantOff' = IF Bit(a.isr, 3) = 1 \/ Bit(b.isr, 3) = 1 THEN FALSE
                            ELSE IF e.kind = "OFF" /\ execd /\ ~D /\ b.pw # "run" THEN TRUE ELSE wantOff
+             /\ kbirq' = kbirq
 
 TSpec == TInit /\ [][TNext]_vars
 Done == l = Len(TraceLog) + 1
